@@ -678,7 +678,7 @@ fn explore_scripts(ctx: &Ctx, e: Entry, base: usize, max_iter: usize, dmax: usiz
 fn main() {
     let ctx = Ctx::from_args("C17");
     ctx.level("model_checking");
-    ctx.rule("E1 (convergence): 11 scalar real families with analytic roots (quadratic, cubic, exp, sin, x - cos x) x 9 guesses across a conservatively computed basin x tol in {1e-12..1e-4} x max_iter in {0,1,2,3,5,20,50} x delta in {1e-8,1e-6}; 5 complex scalar families x 9 guesses; real and complex systems F(x) = Dx + eps g(x) - b of dimension 1..6 with finite-difference and user-supplied Jacobians. Ok(x) => distance to the root <= 4 tol kappa + 1e-12; enough iterations (exact Newton count + 2) => Ok; Err carries the iterate after max_iter exact Newton steps; max_iter = 0 => Err(guess) bit for bit; evaluations <= 3 (scalar) / n+2 (systems) per iteration; parameters() unchanged; repeated calls bit-identical. E4 (termination): depth-first exploration of ALL answer scripts of the user closure - at every call position every answer in {0, NaN, +inf, 1e300, -default} - up to 1 (quick) / 2 (thorough) deviations, for all six entry points, max_iter 0..3, on root-free, non-differentiable and ordinary base functions started at 1.5 and at 0 (zero derivative / kink on the first step): the call returns, evaluation bound respected, root-free => Err, two runs of a script identical.");
+    ctx.rule("E1 (convergence): 11 scalar real families with analytic roots (quadratic, cubic, exp, sin, x - cos x) x 9 guesses across a conservatively computed basin x tol in {1e-12..1e-4} x max_iter in {0,1,2,3,5,20,50} x delta in {1e-8,1e-6}; 5 complex scalar families x 9 guesses; real and complex systems F(x) = Dx + eps g(x) - b of dimension 1..6 with finite-difference and user-supplied Jacobians. Ok(x) => distance to the root <= 4 tol kappa + 1e-12; enough iterations (exact Newton count + 2) => Ok; Err carries the iterate after max_iter exact Newton steps; max_iter = 0 => Err(guess) bit for bit; evaluations <= 3 (scalar) / n+2 (systems) per iteration; parameters() unchanged; repeated calls bit-identical. E4 (termination): depth-first exploration of ALL answer scripts of the user closure - at every call position every answer in {0, NaN, +inf, 1e300, -default} - up to 1 (quick) / 2..4 (thorough) deviations, for all six entry points (for the systems both residual components are scripted), max_iter 0..3 (thorough 0..5), on root-free, non-differentiable and ordinary base functions started at 1.5 and at 0 (zero derivative / kink on the first step) and on x - 1.5 started at its root: the call returns, evaluation bound respected, root-free => Err, a system never succeeds unless some residual was small, the user-Jacobian system entries agree with a reference model of the stopping rule (first residual whose components all have modulus <= tol; NaN never counts), two runs of a script identical.");
     ctx.assume("basins are computed conservatively from |f'(r)|/(2 max|f''|); a counting closure panics beyond 4x the evaluation bound so that an unbounded loop is reported, not waited for");
     ctx.threshold("scalar_root_error_over_bound", 1.0);
     ctx.threshold("system_root_error_over_bound", 1.0);
@@ -865,8 +865,10 @@ fn main() {
             let dmax = ctx.pick(1, 2);
             for e in [Entry::F64, Entry::Cmplx, Entry::Vec, Entry::VecJac, Entry::CVec, Entry::CVecJac] {
                 for base in 0..7 {
-                    for mi in 0..=3 {
-                        explore_scripts(&ctx, e, base, mi, dmax, &mut st, space);
+                    for mi in 0..=ctx.pick(3, 5) {
+                        // thorough: three deviations where the runs are short enough for the script tree to stay small
+                        let dm = if ctx.quick() { dmax } else if mi <= 1 { 4 } else if mi <= 3 { 3 } else { 2 };
+                        explore_scripts(&ctx, e, base, mi, dm, &mut st, space);
                     }
                 }
             }
@@ -878,7 +880,7 @@ fn main() {
             s.nontrivial = st.with_nan;
             s.states = st.scripts;
             s.transitions = st.transitions.max(1);
-            s.depth = dmax as u64;
+            s.depth = if ctx.thorough() { 4 } else { dmax as u64 };
             s.hits.insert("scripts with a NaN answer".into(), st.with_nan);
             s.hits.insert("user-Jacobian runs the reference model ends in Ok".into(), st.model_ok);
             if st.model_ok == 0 {
@@ -887,7 +889,7 @@ fn main() {
             s.samples = st.samples;
             s.viol_total = st.viols.len() as u64;
             s.wall_s = t0.elapsed().as_secs_f64();
-            s.notes.push(format!("states = executed scripts (each run twice), transitions = closure calls answered; deviation bound {}", dmax));
+            s.notes.push(format!("states = executed scripts (each run twice), transitions = closure calls answered; deviation bound {} (thorough: 4 for max_iter <= 1, 3 for max_iter 2..3, 2 for max_iter 4..5)", dmax));
             if st.with_nan == 0 {
                 ctx.machinery_error("vacuity: no script with a NaN answer".into());
             }
